@@ -447,12 +447,57 @@ def r3_tables(repo: Repo, rep):
             rep.check(R, good, fi.site(), fi.fq, f"rot[:, {c}] = J[:, {a1}, {b1}] - J[:, {a2}, {b2}]", dump(v)[-70:] if v is not None else "missing", f"rot{c}: " + (dump(v)[-60:] if v is not None else "missing"))
     fi = m.functions.get("sym_grad")
     rep.saw(fi)
+
+    def is_jac(n, fi):
+        return isinstance(n, ast.Call) and attr_chain(n.func) == "jac" and dump(n).replace(" ", "") == f"jac({fi.params[0]},*{fi.node.args.vararg.arg})"
+
+    def axis_of(call, pos):
+        d = kwarg(call, "dim", pos)
+        if d is None:
+            d = kwarg(call, "axis", pos)
+        try:
+            return ast.literal_eval(d) if d is not None else None
+        except Exception:
+            return None
+
+    def transposed(n, fi):
+        """the operand of a swap of the two matrix axes of a (batch, i, j) tensor, or None"""
+        if isinstance(n, ast.Attribute) and n.attr == "mT":
+            return n.value
+        if not isinstance(n, ast.Call):
+            return None
+        ch = attr_chain(n.func) or ""
+        name = ch.split(".")[-1] if ch else (n.func.attr if isinstance(n.func, ast.Attribute) else "")
+        is_mod = ch.startswith("torch.")
+        subj = (n.args[0] if n.args else None) if is_mod else (n.func.value if isinstance(n.func, ast.Attribute) else None)
+        rest = n.args[1:] if is_mod else n.args
+        try:
+            vals = [ast.literal_eval(a) for a in rest] + [ast.literal_eval(k.value) for k in n.keywords]
+        except Exception:
+            return None
+        if name in ("transpose", "swapaxes", "swapdims") and sorted(v % 3 for v in vals if isinstance(v, int)) == [1, 2] and len(vals) == 2:
+            return subj
+        if name == "permute" and (vals == [0, 2, 1] or vals == [(0, 2, 1)] or vals == [[0, 2, 1]]):
+            return subj
+        return None
+
     for p in paths(fi.node):
         if p.ret is RAISE:
             continue
+        def atom(n, fi=fi):
+            if is_jac(n, fi):
+                return RF.atom("J")
+            inner = transposed(n, fi)
+            if inner is not None and is_jac(inner, fi):
+                return RF.atom("Jt")
+            return None
         t = dump(p.ret).replace(" ", "")
-        J = f"jac({fi.params[0]},*{fi.node.args.vararg.arg})"
-        ok = t in (f"0.5*({J}+torch.transpose({J},1,2))", f"({J}+torch.transpose({J},1,2))/2", f"0.5*({J}+{J}.transpose(1,2))", f"0.5*(torch.transpose({J},1,2)+{J})")
+        try:
+            got = to_rf(p.ret, atom)
+            half = RF.const(1) / RF.const(2)
+            ok = got == half * RF.atom("J") + half * RF.atom("Jt")
+        except NotPoly:
+            ok = False
         rep.check(R, ok, fi.site(), fi.fq, "0.5 * (J + transpose(J, 1, 2))", t[:120], t[:120])
     fi = m.functions.get("convective")
     rep.saw(fi)
@@ -460,8 +505,24 @@ def r3_tables(repo: Repo, rep):
         if p.ret is RAISE:
             continue
         t = dump(p.ret).replace(" ", "")
-        J = f"jac({fi.params[0]},*{fi.node.args.vararg.arg})"
-        ok = t == f"torch.bmm({J},{fi.params[1]}.unsqueeze(2)).squeeze(dim=2)"
+        r = p.ret
+        # outer: removal of the trailing unit axis (squeeze(2) / squeeze(-1) / [..., 0] / [:, :, 0])
+        inner = None
+        if isinstance(r, ast.Call) and (attr_chain(r.func) or "").split(".")[-1] == "squeeze" or (isinstance(r, ast.Call) and isinstance(r.func, ast.Attribute) and r.func.attr == "squeeze"):
+            is_mod = (attr_chain(r.func) or "").startswith("torch.")
+            if axis_of(r, 1 if is_mod else 0) in (2, -1):
+                inner = r.args[0] if is_mod else r.func.value
+        elif isinstance(r, ast.Subscript) and dump(r.slice).replace(" ", "") in ("(...,0)", "(slice(None,None,None),slice(None,None,None),0)", "(:,:,0)"):
+            inner = r.value
+        ok = False
+        if isinstance(inner, ast.Call) and (attr_chain(inner.func) or "") in ("torch.bmm", "torch.matmul") and len(inner.args) == 2:
+            a, b = inner.args
+            col = None
+            if isinstance(b, ast.Call) and ((attr_chain(b.func) or "").split(".")[-1] == "unsqueeze" or (isinstance(b.func, ast.Attribute) and b.func.attr == "unsqueeze")):
+                is_mod = (attr_chain(b.func) or "").startswith("torch.")
+                if axis_of(b, 1 if is_mod else 0) in (2, -1):
+                    col = b.args[0] if is_mod else b.func.value
+            ok = is_jac(a, fi) and col is not None and dump(col) == fi.params[1]
         rep.check(R, ok, fi.site(), fi.fq, "bmm(J, v[..., None])[..., 0]", t[:120], t[:120])
     fi = m.functions.get("normal_derivative")
     rep.saw(fi)
